@@ -1,5 +1,6 @@
 (* C14 - Every deal survives every encoding round trip.
    Only statements, each closed by [exact]; proofs are in the files imported below. *)
+From BE Require Import Model.Json Gen.JsonFns Proofs.JsonGen.
 From BE Require Import Model.Hands Proofs.Hands Gen.Regexes Proofs.Pins.
 From Coq Require Import Permutation.
 Local Open Scope nat_scope.
@@ -86,6 +87,18 @@ Theorem C14_json_each_card_once :
   forall h, NoDup (sorted_hand h) /\ (forall c, In c (sorted_hand h) <-> In c h).
 Proof. exact json_lists_each_card_once. Qed.
 Print Assumptions C14_json_each_card_once.
+
+(* convert_deal REGENERATED from json_handler/writer.py on every run equals the hand model, for every deal *)
+Theorem C14_generated_deal_writer_is_hand_model :
+  forall d : deal, g_deal_json d = deal_json d.
+Proof. exact g_deal_json_eq. Qed.
+Print Assumptions C14_generated_deal_writer_is_hand_model.
+
+(* hands_parser regenerated from json_handler/parser.py equals the hand model on every JSON value *)
+Theorem C14_generated_deal_reader_is_hand_model :
+  forall j, g_deal_of_json j = deal_of_json j.
+Proof. exact g_deal_of_json_eq. Qed.
+Print Assumptions C14_generated_deal_reader_is_hand_model.
 
 Theorem C14_pack :
   Permutation pack_order all_cards.
